@@ -202,7 +202,6 @@ Proof.
   rewrite IH. reflexivity.
 Qed.
 
-Definition to_reject (r : runspec) : runspec := {| rs_pol := Reject; rs_mode := rs_mode r |}.
 
 Lemma step_destale : forall c s r, is_reject (rs_pol r) = false ->
   step (destale_c c) (destale_s s) (to_reject r)
@@ -308,6 +307,6 @@ Proof.
   cbn [history] in Hin. pose proof (Inv_step c s ru HI) as HI'.
   destruct (step c s ru) as [rs0 s'] eqn:Es. cbn [snd] in HI'. destruct Hin as [E|Hin].
   - subst rs0. unfold step in Es. destruct s as [st cp], ru as [pol m]. cbn [rs_pol rs_mode s_store s_copy] in *.
-    destruct m; inversion Es; subst; eapply run_chain_not_premature; eauto.
+    destruct m; inversion Es; subst; exact (run_chain_not_premature _ _ _ _ _ _ _ _ HI Hr Ha).
   - eapply IH; eauto.
 Qed.
